@@ -336,8 +336,8 @@ func lowerBoundOK(p *Program, idx ssa.Value) (bool, string) {
 // neverNil computes, for every (nonterminal, union field), whether the semantic value can be nil / of which kinds,
 // from the assignments of all productions (greatest fixpoint).
 type semInfo struct {
-	g      *LALR
-	nm     *NodeModel
+	g        *LALR
+	nm       *NodeModel
 	maybeNil map[string]bool // "nt.field"
 }
 
